@@ -424,7 +424,20 @@ public:
     for (unsigned i = 0; i < FD->getNumParams(); i++) {
       auto* P = FD->getParamDecl(i);
       if (i) s += ",";
-      s += "{\"name\":\"" + jesc(P->getNameAsString()) + "\",\"type\":\"" + jesc(K.ty(P->getType())) + "\",\"pack\":" + (P->isParameterPack() ? "true" : "false") + ",\"default\":" + (P->hasDefaultArg() ? "true" : "false") + "}";
+      std::string dx;
+      if (P->hasDefaultArg() && !P->hasUnparsedDefaultArg() && !P->hasUninstantiatedDefaultArg() && P->getDefaultArg()) dx = K.ex(P->getDefaultArg());
+      s += "{\"name\":\"" + jesc(P->getNameAsString()) + "\",\"type\":\"" + jesc(K.ty(P->getType())) + "\",\"pack\":" + (P->isParameterPack() ? "true" : "false") + ",\"default\":" + (P->hasDefaultArg() ? "true" : "false") + ",\"defexpr\":\"" + jesc(dx) + "\"}";
+    }
+    s += "],\"tparams\":[";
+    if (auto* FT = FD->getDescribedFunctionTemplate()) {
+      bool f1 = true;
+      for (auto* TP : *FT->getTemplateParameters()) {
+        std::string d;
+        if (auto* TT = dyn_cast<TemplateTypeParmDecl>(TP)) { if (TT->hasDefaultArgument()) d = K.ty(TT->getDefaultArgument()); }
+        else if (auto* NT = dyn_cast<NonTypeTemplateParmDecl>(TP)) { if (NT->hasDefaultArgument() && NT->getDefaultArgument()) d = K.ex(NT->getDefaultArgument()); }
+        if (!f1) s += ","; f1 = false;
+        s += "{\"name\":\"" + jesc(TP->getNameAsString()) + "\",\"default\":\"" + jesc(d) + "\"}";
+      }
     }
     s += "],\"facts\":[";
     bool first = true;
